@@ -202,22 +202,67 @@ def branch(tree, name):
     raise Unsupported('no %s branch' % name)
 
 
-def empty_dtype_rule(tree):
+EMPTY_ATOMS = {'val.size == 0': 'size0', 'val.dtype == np.float64': 'is_f64',
+               'field.type in (int, bool, Optional[int], Optional[bool])': 'decl_int_or_bool'}
+MAGN_ATOMS = {'field.type in (int, Optional[int])': 'decl_int', "val.dtype.kind in 'fO'": 'held_as_float_or_object',
+              'isinstance(pre_val, (list, tuple))': 'is_list', 'len(pre_val) > 0': 'nonempty',
+              'all((type(v) is int for v in pre_val))': 'all_python_ints'}
+
+
+def numeric_rules(tree):
+    """the statements after `val = np.asanyarray(pre_val)` in the numeric branch, classified by the shape of their test:
+    -> (magnitude rule `if` or None, empty-dtype rule `if` or None); anything else is Unsupported"""
     body = branch(tree, 'numeric')
     if src_of(body[0]) != 'val = np.asanyarray(pre_val)':
         raise Unsupported('numeric branch does not start with val = np.asanyarray(pre_val)')
+    magn = empt = None
+    for st in body[1:]:
+        if not isinstance(st, ast.If) or st.orelse:
+            raise Unsupported('numeric branch: statement that is not a plain `if`: %s' % src_of(st)[:80])
+        try:
+            cond(st.test, EMPTY_ATOMS, [])
+            if empt is not None or len(st.body) != 1:
+                raise Unsupported('numeric branch: two empty-column rules')
+            empt = st
+            continue
+        except Unsupported:
+            pass
+        cond(st.test, MAGN_ATOMS, [])            # raises Unsupported for any other test
+        if magn is not None or empt is not None:
+            raise Unsupported('numeric branch: magnitude rule duplicated or after the empty-column rule')
+        magn = st
+    return magn, empt
+
+
+def empty_dtype_rule(tree):
+    _, st = numeric_rules(tree)
     P = ['size0', 'is_f64', 'decl_int_or_bool', 'decl_bool']
-    if len(body) == 1:
+    if st is None:
         return 'Definition gen_empty_dtype_rule %s : Z := 0.\n' % sig(P)
-    if len(body) != 2 or not isinstance(body[1], ast.If) or body[1].orelse or len(body[1].body) != 1:
-        raise Unsupported('numeric branch has an unknown shape')
-    atoms = {'val.size == 0': 'size0', 'val.dtype == np.float64': 'is_f64',
-             'field.type in (int, bool, Optional[int], Optional[bool])': 'decl_int_or_bool'}
-    c = cond(body[1].test, atoms, [])
-    act = src_of(body[1].body[0])
+    c = cond(st.test, EMPTY_ATOMS, [])
+    act = src_of(st.body[0])
     if act != 'val = val.astype(bool if field.type in (bool, Optional[bool]) else int)':
         raise Unsupported('unknown cast: %s' % act)
     return 'Definition gen_empty_dtype_rule %s : Z :=\n  if %s then (if decl_bool then 2 else 1) else 0.\n' % (sig(P), c)
+
+
+def int_magnitude_rule(tree):
+    """python ints without a common NumPy integer type: 1 = hold as uint64, -1 = OverflowError, 0 = rule not applicable"""
+    st, _ = numeric_rules(tree)
+    P = ['decl_int', 'held_as_float_or_object', 'is_list', 'nonempty', 'all_python_ints', 'min_nonneg', 'max_below_2_64']
+    if st is None:
+        return 'Definition gen_int_magnitude_rule %s : Z := 0.\n' % sig(P)
+    c = cond(st.test, MAGN_ATOMS, [])
+    if len(st.body) != 1 or not isinstance(st.body[0], ast.If):
+        raise Unsupported('magnitude rule: body is not one if/else')
+    inner = st.body[0]
+    ic = cond(inner.test, {'min(pre_val) >= 0': 'min_nonneg', 'max(pre_val) < 2 ** 64': 'max_below_2_64'}, [])
+    if [src_of(x) for x in inner.body] != ['val = np.array(pre_val, dtype=np.uint64)']:
+        raise Unsupported('magnitude rule: the fitting case does not build a uint64 array')
+    if not (len(inner.orelse) == 1 and isinstance(inner.orelse[0], ast.Raise)
+            and src_of(inner.orelse[0].exc.func) == 'OverflowError'):
+        raise Unsupported('magnitude rule: the other case does not raise OverflowError')
+    return ('Definition gen_int_magnitude_rule %s : Z :=\n  if %s then (if %s then 1 else (-1)) else 0.\n' % (sig(P), c, ic))
 
 
 def flat_check(tree):
@@ -421,6 +466,7 @@ def gen():
     emit(defs, 'gen_sort_stable', lambda: 'Definition gen_sort_stable : bool := %s.\n' % ('true' if sort_by(t)[1] else 'false'))
     emit(defs, 'gen_dispatch', lambda: dispatch(t))
     emit(defs, 'gen_empty_dtype_rule', lambda: empty_dtype_rule(t))
+    emit(defs, 'gen_int_magnitude_rule', lambda: int_magnitude_rule(t))
     emit(defs, 'gen_flat_check_raises', lambda: flat_check(t))
     emit(defs, 'gen_nested_converts_rows', lambda: nested_converts_lists(t))
     emit(defs, 'gen_add_name_raises', lambda: add_name_check(t))
